@@ -26,8 +26,10 @@ func ProfileFor(prop string) Profile {
 	switch prop {
 	case "C01":
 		p.HookEvery = 1
+		p.RetryHeavy = true
 		w["sync"] = 45
 	case "C02":
+		p.RetryHeavy = true
 		w["wait"], w["auth"], w["gate"], w["ungate"], w["cancel"], w["adv"], w["kill"] = 10, 8, 6, 8, 9, 14, 5
 	case "C03":
 		p.DedupHeavy = true
@@ -44,9 +46,11 @@ func ProfileFor(prop string) Profile {
 		w["drain+"], w["drain-"], w["term"], w["killq"], w["adv"] = 6, 7, 3, 3, 12
 	case "C06":
 		p.LeakPhase = true
+		p.RetryHeavy = true
 		w["adv"], w["cancel"], w["csync"], w["term"], w["cterm"] = 16, 9, 5, 3, 2
 	case "C07":
 		p.LeakPhase = true
+		p.RetryHeavy = true
 		w["exec"], w["sync"], w["kill"], w["cancel"] = 26, 40, 5, 8
 	}
 	return p
@@ -86,6 +90,9 @@ func RunStepped(r *ev.Run, prop string, n int) {
 		w := GenWorld(rng, p)
 		r.Case("stepped case %d profile %s: %d queues %d workers %d actions", i, p.Name, len(w.PQs), len(w.Workers), len(w.Actions))
 		c := NewCase(w, p, rng)
+		if p.RetryHeavy {
+			c.Scenario = i % 4
+		}
 		res := c.Run(nil)
 		reportCase(r, prop, i, res, foreign)
 		if res.Ambiguous != "" {
